@@ -166,6 +166,11 @@ pub fn main(args: &[String]) -> i32 {
     let mut r2 = rng(2020);
     for _ in 0..n {
         let mut s = gen_scenario(&mut r, &GenOpts { max_v: arg_usize(args, "--maxv", 9), focus: String::from("c20") });
+        // plain rates only: the renderer serialises the cost model, and the chained rate form cannot be serialised
+        // (internally tagged newtype holding a sequence) - outside this property
+        s["rate_chain"] = json!(false);
+        s["od"] = json!(0);
+        s["ot"] = json!(0);
         s["dir"] = json!("fwd");
         if ju(&s["dst"]) == 0 {
             s["dst"] = json!(if ju(&s["src"]) == 1 { 2 } else { 1 });
